@@ -319,10 +319,24 @@ def c15_case(ctx, rng, n_targets, kill_at, flt):
     finally:
         rr.close()
 
-def c20_case(ctx, rng, n_targets, flt, crlf=False, burst=0, paused=0, extra_cmds=(), long_line=0, cancel=False):
+def make_wide_filter_case(rng, n):
+    """n targets with paths of ~130 characters; the listener names all but two of them, so its filter line runs to several kilobytes."""
+    targets = [{"path": "services/%s-%02d" % ("".join(rng.choice("abcdefghijklmnopqrstuvwxyz") for _ in range(118)), i)} for i in range(n)]
+    script, written = {"*": {}}, {}
+    for t in targets:
+        so = [(b"%s out line %d\n" % (t["path"][-6:].encode(), k), rng.choice([0, 0, 30])) for k in range(3)]
+        se = [(b"%s err line %d\n" % (t["path"][-6:].encode(), k), 0) for k in range(2)]
+        script["build|%s" % t["path"]] = {"chunks": [[1, d.hex(), ms] for d, ms in so] + [[2, d.hex(), ms] for d, ms in se]}
+        written[t["path"]] = {"stdout": so, "stderr": se}
+    return {"targets": targets}, script, written
+
+def c20_case(ctx, rng, n_targets, flt, crlf=False, burst=0, paused=0, extra_cmds=(), long_line=0, cancel=False, wide=False):
     """paused > 0: whoever reads the listener's output (a pager, a slow pipe, a stopped job) does not read for that many seconds
     while the run produces far more than the pipe and socket buffers hold; afterwards it reads everything."""
-    if cancel: cfg, script, written = make_cancel_case(rng, n_targets)
+    if wide:
+        cfg, script, written = make_wide_filter_case(rng, n_targets)
+        flt = ["--stdout", "--stderr", "-t"] + [t["path"] for t in cfg["targets"][:-2]]
+    elif cancel: cfg, script, written = make_cancel_case(rng, n_targets)
     elif paused: cfg, script, written = make_volume_case(rng, n_targets, 2)
     else: cfg, script, written = make_burst_case(rng, n_targets, burst) if burst else make_case(rng, n_targets, "text")
     if long_line:
@@ -362,7 +376,8 @@ def c20_case(ctx, rng, n_targets, flt, crlf=False, burst=0, paused=0, extra_cmds
         except subprocess.TimeoutExpired: lst.kill()
         th.join(timeout=5)
         lo = bytes(got)
-        case = {"targets": n_targets, "filters": flt, "crlf": crlf, "burst": burst, "paused": paused, "extra_cmds": list(extra_cmds), "long_line": long_line, "cancel": cancel, "script": script if not (burst or paused or long_line or cancel) else "generated"}
+        case = {"targets": n_targets, "filters": flt, "crlf": crlf, "burst": burst, "paused": paused, "extra_cmds": list(extra_cmds), "long_line": long_line, "cancel": cancel, "wide": wide, "script": script if not (burst or paused or long_line or cancel or wide) else "generated"}
+        if wide: case["filters"] = ["--stdout", "--stderr", "-t", "<all but two of %d paths of ~130 characters>" % n_targets]; ctx.count("filter_line_over_4k")
         if out is None:
             ctx.record(case, True, False, False, True, detail={"what": "run failed", "rc": rc, "err": err}); return
         logs = stored_logs(rr, out)
@@ -434,6 +449,9 @@ def run(ctx, scale, focus):
         # a failing task cancels its group while the siblings are in the middle of their output
         for n in ([10, 14] if ctx.quick() else [4, 10, 14, 20] * 3) * scale:
             c20_case(ctx, random.Random(rng.getrandbits(32)), n, ["--stdout", "--stderr"], cancel=True)
+        # a filter that names dozens of long target paths (the filter line the run receives is several kilobytes long)
+        for n in ([40] if ctx.quick() else [40, 64, 120]) * scale:
+            c20_case(ctx, random.Random(rng.getrandbits(32)), n, [], wide=True)
         for n, size in ([(3, 3000000)] if ctx.quick() else [(3, 3000000), (2, 2097153), (4, 5000000)]) * scale:
             c20_case(ctx, random.Random(rng.getrandbits(32)), n, ["--stdout", "--stderr"], False, 0, 0, (), long_line=size)
         for n, secs in ([(6, 3)] if ctx.quick() else [(6, 3), (8, 5), (4, 2)]) * scale:
@@ -445,5 +463,5 @@ def replay(ctx, case, focus):
     if focus == "C08" and c.get("twice"): c08_twice_case(ctx, rng, c.get("first_is_longer", True))
     elif focus == "C08": c08_case(ctx, rng, c.get("targets", 4), c.get("kind", "mixed"), c.get("listener", "none"))
     elif focus == "C15": c15_case(ctx, rng, c.get("targets", 4), c.get("listener_killed", 0.25), c.get("filters", ["--stdout", "--stderr"]))
-    else: c20_case(ctx, rng, c.get("targets", 4), c.get("filters", ["--stdout", "--stderr"]), c.get("crlf", False), c.get("burst", 0), c.get("paused", 0), tuple(c.get("extra_cmds", ())), c.get("long_line", 0), c.get("cancel", False))
+    else: c20_case(ctx, rng, c.get("targets", 4), c.get("filters", ["--stdout", "--stderr"]), c.get("crlf", False), c.get("burst", 0), c.get("paused", 0), tuple(c.get("extra_cmds", ())), c.get("long_line", 0), c.get("cancel", False), c.get("wide", False))
     return {"spec_failures": [d for _, d in ctx.spec_failures][:3], "disagreements": [d for _, d in ctx.tie_breaks][:3]}
